@@ -169,3 +169,15 @@ package server
 //@   loop 3 invariant [count] ncomplete == ndispatched
 //@   loop 3 invariant data == fdata[fpos-len(data):fpos]
 //@   loop 4 invariant len(msg.Args) == idx4 && forall(i, 0, idx4, msg.Args[i] == args[i])
+
+// ---- roaming fences (C20) -----------------------------------------------------
+//@ ghost macro roamIdMatch(fence, id) = ite(fence.roam.pattern, globMatches(fence.roam.id, id), fence.roam.id == id)
+//@ ghost macro roamOK(fence, obj, m) = m.id != objID(obj) && roamIdMatch(fence, m.id) && m.meters == gDistance(objGeo(obj), m.obj) && m.meters <= fence.roam.meters
+// every reported neighbour is another object, matches the id pattern, carries the true distance between the two
+// objects, and that distance does not exceed the radius
+//@ func fenceMatchNearbys
+//@   requires s != nil && s.cols != nil && fence != nil
+//@   modifies steps
+//@   frame-by-effects
+//@   ensures [within-radius] forall(k, 0, len(nearbys), roamOK(fence, obj, nearbys[k]))
+//@   loop 1 invariant forall(k, 0, len(nearbys), roamOK(fence, obj, nearbys[k]))
